@@ -66,7 +66,7 @@ func (d *SQLiteDialect) Placeholder(index int) string {
 
 // QuoteIdentifier quotes identifiers with double quotes
 func (d *SQLiteDialect) QuoteIdentifier(name string) string {
-	return fmt.Sprintf(`"%s"`, name)
+	return fmt.Sprintf(`"%s"`, strings.ReplaceAll(name, `"`, `""`))
 }
 
 // CreateTableSQL generates a CREATE TABLE statement for SQLite
@@ -132,7 +132,7 @@ func (d *PostgresDialect) Placeholder(index int) string {
 
 // QuoteIdentifier quotes identifiers with double quotes
 func (d *PostgresDialect) QuoteIdentifier(name string) string {
-	return fmt.Sprintf(`"%s"`, name)
+	return fmt.Sprintf(`"%s"`, strings.ReplaceAll(name, `"`, `""`))
 }
 
 // CreateTableSQL generates a CREATE TABLE statement for PostgreSQL
@@ -197,7 +197,7 @@ func (d *MySQLDialect) Placeholder(index int) string {
 
 // QuoteIdentifier quotes identifiers with backticks
 func (d *MySQLDialect) QuoteIdentifier(name string) string {
-	return fmt.Sprintf("`%s`", name)
+	return fmt.Sprintf("`%s`", strings.ReplaceAll(name, "`", "``"))
 }
 
 // CreateTableSQL generates a CREATE TABLE statement for MySQL
